@@ -220,12 +220,62 @@ done_family:
         free(mgr);
 }
 
+/* long life of one manager with a lane left idle: lanes-1 jobs of 4 x (2^32-64) + 2^30 bytes each (> 2^34 bytes per lane) driven
+ * through submit + flush, so whatever per-lane bookkeeping the manager keeps for idle lanes is carried across > 2^28 blocks */
+static void decay_run(const halg_t *a, const hfam_t *f)
+{
+        if (!strcmp(f->name, "base") || !strcmp(f->name, "sb_sse4")) return;
+        int n = f->lanes > 32 ? 31 : f->lanes - 1; if (n < 1) n = 1;
+        static const uint32_t segs[5] = { 0xffffffc0u, 0xffffffc0u, 0xffffffc0u, 0xffffffc0u, 0x40000123u };
+        uint64_t total = 0; for (int k = 0; k < 5; k++) total += segs[k];
+        const EVP_MD *md = a->ref_alg == REF_SHA1 ? EVP_sha1() : a->ref_alg == REF_SHA256 ? EVP_sha256() : a->ref_alg == REF_SHA512 ? EVP_sha512() : a->ref_alg == REF_MD5 ? EVP_md5() : EVP_sm3();
+        static uint8_t exp[5][64]; static int have[5];
+        if (!have[a->ref_alg]) { EVP_MD_CTX *c = EVP_MD_CTX_new(); unsigned dl; EVP_DigestInit_ex(c, md, NULL); for (int k = 0; k < 5; k++) for (uint64_t o = 0; o < segs[k]; o += 1u << 30) EVP_DigestUpdate(c, stream + o, segs[k] - o > (1u << 30) ? (1u << 30) : segs[k] - o); EVP_DigestFinal_ex(c, exp[a->ref_alg], &dl); EVP_MD_CTX_free(c); have[a->ref_alg] = 1; }
+        uint8_t *mgr = aligned_alloc(64, (a->mgr_size + 63) & ~(size_t) 63), *ctx[32];
+        char rb[200], key[160];
+        snprintf(rb, sizeof rb, "{\"engine\":\"hashmb\",\"mode\":\"big\",\"thr\":\"decay\",\"alg\":\"%s\",\"fam\":\"%s\"}", a->name, f->name);
+        snprintf(cur_replay, sizeof cur_replay, "%s", rb);
+        f->init(mgr);
+        for (int i = 0; i < n; i++) { ctx[i] = aligned_alloc(64, (a->ctx_size + 63) & ~(size_t) 63); a->ctx_init(ctx[i]); }
+        for (int k = 0; k < 5; k++) {
+                int pending = 0;
+                for (int i = 0; i < n; i++) {
+                        LABEL("%s %s decay submit seg %d job %d", a->name, f->name, k, i);
+                        if (!f->submit(mgr, ctx[i], stream, segs[k], k == 0 ? ISAL_HASH_FIRST : k == 4 ? ISAL_HASH_LAST : ISAL_HASH_UPDATE)) pending++;
+                        cur_label[0] = 0;
+                }
+                int guard = 4 * n + 8;
+                while (pending > 0 && guard-- > 0) { LABEL("%s %s decay flush seg %d pending %d", a->name, f->name, k, pending); void *r = f->flush(mgr); cur_label[0] = 0; if (!r) break; pending--; }
+                if (pending) { snprintf(key, sizeof key, "decay-stranded %s %s", a->name, f->name); out_viol(g_prop, key, rb, "after segment %d, %d job(s) were not handed back by flush", k, pending); break; }
+                out_count("decay_segments", (uint64_t) n);
+        }
+        for (int i = 0; i < n; i++) {
+                uint8_t got[64] = { 0 }; halg_digest_bytes(a, ctx[i], got);
+                if (*(uint64_t *) (ctx[i] + a->off_total) != total) { snprintf(key, sizeof key, "total-length %s %s", a->name, f->name); out_viol(g_prop, key, rb, "total_length %llu after %llu bytes", (unsigned long long) *(uint64_t *) (ctx[i] + a->off_total), (unsigned long long) total); }
+                if (memcmp(got, exp[a->ref_alg], (size_t) a->dbytes) || *(int32_t *) (ctx[i] + a->off_status) != ISAL_HASH_CTX_STS_COMPLETE) { snprintf(key, sizeof key, "decay-digest %s %s", a->name, f->name); out_viol(g_prop, key, rb, "job %d of %d: wrong digest or status after %llu bytes with one lane idle", i, n, (unsigned long long) total); }
+                free(ctx[i]);
+        }
+        out_count("decay_runs", 1); out_count("big_handbacks", (uint64_t) n * 5);
+        feat(mix64(0xdeca1, (uint64_t) (f - a->fam)));
+        free(mgr);
+}
+
 int hashmb_big(int argc, char **argv)
 {
         (void) argc; (void) argv;
         const halg_t *a = halg_by_name(arg_str("--alg", "sha256"));
         if (!a) out_err("--alg required");
         const char *fams = arg_str("--fam", "all");
+        if (strstr(arg_str("--thr", "29"), "decay")) {
+                map_stream();
+                for (int fi = 0; fi < a->nfam; fi++) {
+                        if (strcmp(fams, "all")) { char t[128], w[32]; snprintf(t, sizeof t, ",%s,", fams); snprintf(w, sizeof w, ",%s,", a->fam[fi].name); if (!strstr(t, w)) continue; }
+                        decay_run(a, &a->fam[fi]);
+                }
+                out_sample("{\"engine\":\"hashmb big\",\"mode\":\"decay\",\"alg\":\"%s\",\"families\":\"%s\"}", a->name, fams);
+                out_finish();
+                return viol_count() ? 1 : 0;
+        }
         if (strstr(arg_str("--thr", "29"), "pairs")) {
                 map_stream();
                 for (int fi = 0; fi < a->nfam; fi++) {
